@@ -15,8 +15,8 @@ CHECKS = {
          "netip.ParseAddr native on concrete literals, modelled as rejecting on digit-free symbolic tokens; engine; z3"),
  "C17": ("ExtractHostname on grammar URLs with symbolic scheme/host/port/path/query/fragment bytes; effectiveTLDPlusOne against the real body of publicsuffix.EffectiveTLDPlusOne on symbolic hosts; every field of NewRequest/NewRequestForHostname incl. third-party symmetry and the 4 KiB cap",
          "PSL replaced by a compact model validated exhaustively against the real library each run; net/url agreement validated on 20000 sampled grammar URLs; engine; z3"),
- "C03": ("part (a) only so far: patternToRegexp on symbolic patterns of 1..3 (thorough 1..4) bytes: no crash and output == token-by-token translation of the mask syntax",
-         "strings.Replacer modelled from the live table; engine; z3"),
+ "C03": ("(a) patternToRegexp on symbolic patterns (1..3/4 bytes): no crash, output == token translation; (b) for every enumerated mask pattern (1..2/3 tokens over 22 tokens incl. all regexp metacharacters, || and /* forms, match-case on/off, plus seeded longer ones) and ALL URLs up to 10/14 printable bytes: compiled regexp accepts u <=> reference mask automaton accepts u (one solver query per pattern and length)",
+         "regexp program encoded as bounded Pike-VM reachability (validated against MatchString each run); patterns enumerated concretely and parsed natively; D15 known finding excluded; engine; z3"),
  "C16": ("unbounded in the fields the function reads (64-bit option word, 32-bit mask, exception flag fully symbolic under the parser's representation invariant); counterexamples replayed from rule text through the real parser",
          "InvRule on option words (validated natively on the repo's own rule corpus); go/ssa lowering; engine; z3"),
 }
@@ -43,7 +43,7 @@ for i in ids:
         na.append({"property_id": i, "reason": NOT_YET.get(i, "check not built yet in this round (engine under construction); no claim is made")})
 m = {
  "version": 1,
- "setup_cmd": "cd /verif/engine && GOFLAGS=-mod=mod GOPROXY=off GOSUMDB=off GOTOOLCHAIN=local go build -o /verif/bin/gosym .",
+ "setup_cmd": "mkdir -p /verif/bin && python3 /verif/mkoverlay.py && cd /verif/engine && GOFLAGS=-mod=mod GOPROXY=off GOSUMDB=off GOTOOLCHAIN=local go build -overlay /verif/bin/build_overlay.json -o /verif/bin/gosym .",
  "hooks": {"guard": "verif", "enable": "no source hooks: harnesses are injected with go/packages Overlay and `go test -overlay`", "baseline_off_cmd": "cd /repo && GOFLAGS=-mod=mod GOPROXY=off go test -vet=off -count=1 ./...", "source_commits": [], "add_only": True},
  "engines": [{"name": "gosym", "path": "/verif/engine", "serves_properties": sorted(CHECKS), "kind_free_text": "own Go SSA -> SMT-LIB2 symbolic executor (x/tools v0.29.0 go/ssa), z3 4.8.12 back end, native replay through go test -overlay"}],
  "checks": checks,
